@@ -1,7 +1,7 @@
 SPECIFICATION Spec
 CONSTANTS
   Directed = @DIRECTED@
-  Mode = "@MODE@"
+  Modes = @MODES@
   MaxN = @MAXN@
   MaxLen = @MAXLEN@
   Alphabet = @ALPHABET@
